@@ -100,6 +100,14 @@ CORPUS_PROGS = [
     ("def f(a: bool, b: bool, c: bool) -> Tuple[bool, bool]:\n    d = a and b\n    e = d and c\n    d = not d\n    return (d, e != a)\n", [["a", "bool"], ["b", "bool"], ["c", "bool"]], ["bool", "bool"]),
     ("def f(a: Qint[2], b: Qint[2]) -> Qint[2]:\n    c = a + b\n    e = c & b\n    c = ~c\n    return c\n", [["a", "Qint2"], ["b", "Qint2"]], "Qint2"),
     ("def f(a: bool, b: bool) -> bool:\n    d = a ^ b\n    e = d or a\n    d = not d\n    return d\n", [["a", "bool"], ["b", "bool"]], "bool"),
+    # an And that recurs inside a later term of a top-level Xor; a negated nested xor under And; if-else shaped Or with the
+    # complement nested
+    ("def f(a: bool, b: bool, c: bool, d: bool) -> bool:\n    return (a and b) ^ (c and (d ^ (a and b)))\n", [["a", "bool"], ["b", "bool"], ["c", "bool"], ["d", "bool"]], "bool"),
+    ("def f(a: bool, b: bool, c: bool, d: bool, e: bool) -> bool:\n    return (not a and not b and not c) ^ (d and (e ^ (a or b or c)))\n", [["a", "bool"], ["b", "bool"], ["c", "bool"], ["d", "bool"], ["e", "bool"]], "bool"),
+    ("def f(a: bool, b: bool, c: bool, d: bool) -> bool:\n    return d and ((a == (b == c)) != (a and b))\n", [["a", "bool"], ["b", "bool"], ["c", "bool"], ["d", "bool"]], "bool"),
+    ("def f(a: bool, b: bool, c: bool, d: bool) -> bool:\n    return (d or a) and ((a == (b == c)) != (c or b))\n", [["a", "bool"], ["b", "bool"], ["c", "bool"], ["d", "bool"]], "bool"),
+    ("def f(a: bool, b: bool, c: bool, d: bool) -> bool:\n    return (a and b) or (c and ((not a) ^ d))\n", [["a", "bool"], ["b", "bool"], ["c", "bool"], ["d", "bool"]], "bool"),
+    ("def f(a: bool, b: bool, z: bool) -> bool:\n    return (a == b) and ((a != b) or z)\n", [["a", "bool"], ["b", "bool"], ["z", "bool"]], "bool"),
     # scratch variables whose names start like the return symbol
     ("def f(a: bool, b: bool, c: bool) -> bool:\n    _retv = a and b\n    return _retv ^ c\n", [["a", "bool"], ["b", "bool"], ["c", "bool"]], "bool"),
     ("def f(a: Qint[2], b: Qint[2]) -> Qint[2]:\n    _ret_tmp = a ^ b\n    return _ret_tmp + a\n", [["a", "Qint2"], ["b", "Qint2"]], "Qint2"),
